@@ -124,23 +124,25 @@ fn resolve_foreign_keys(
     foreign_keys_paths: BTreeSet<(Key, KeyPath)>,
 ) -> Result<()> {
     for (locale, value_path) in foreign_keys_paths {
-        let value =
-            get_value_at_path(values, &locale, &value_path).unwrap_at("resolve_foreign_keys_1");
-        value.resolve_foreign_key(values, &locale, default_locale, extensions, &value_path)?;
+        // the value now found at the recorded path can be another one (`a_one_one` + `a_one_other` merged into `a_one`
+        // while the recorded `a_one` became a form of `a`): resolve both candidates, resolving twice is a no-op.
+        let direct = values.get_value_at(&locale, &value_path);
+        let merged = get_value_at_plural_path(values, &locale, &value_path);
+        direct.or(merged).unwrap_at("resolve_foreign_keys_1");
+        for value in direct.into_iter().chain(merged) {
+            value.resolve_foreign_key(values, &locale, default_locale, extensions, &value_path)?;
+        }
     }
     Ok(())
 }
 
 /// The paths are recorded while parsing, before the plurals are merged:
 /// a foreign key inside `key_one` is now inside the plural at `key`.
-fn get_value_at_path<'a>(
+fn get_value_at_plural_path<'a>(
     values: &'a LocalesOrNamespaces,
     locale: &Key,
     value_path: &KeyPath,
 ) -> Option<&'a parsed_value::ParsedValue> {
-    if let Some(value) = values.get_value_at(locale, value_path) {
-        return Some(value);
-    }
     let mut plural_path = value_path.clone();
     let form_key = plural_path.pop_key()?;
     let (base_key, _) = form_key.name.rsplit_once('_')?;
